@@ -904,8 +904,8 @@ func (m *M) execOp(o *Op) {
 		}
 	case OpTap:
 		p := m.vars[o.P].P
-		if p.Tapped {
-			panic("promisemodel: promise tapped twice")
+		if p == nil || p.Tapped {
+			panic("promisemodel: invalid program: tap of a non-promise or of an already tapped promise")
 		}
 		p.Tapped = true
 		m.tapVar[o.P] = p
